@@ -364,7 +364,68 @@ theorem tempLoop_inv {M : Type} (bal : ℝ → Bal ℝ M) (eps tmin : ℝ) (htmi
       · exact ⟨h1, by omega⟩
     · left; exact ⟨rfl, rfl⟩
 
-/-! ## bridging lemmas used by `Props/C06.lean` -/
+/-! ## the temperature update does not read the coolant fractions stored in the cell -/
+
+/-- loop states that agree on everything except the stored coolant fractions -/
+def Sim {M : Type} (s s' : TState ℝ M) : Prop :=
+  s.T0 = s'.T0 ∧ s.h0 = s'.h0 ∧ s.he0 = s'.he0 ∧ s.gain0 = s'.gain0 ∧ s.loss0 = s'.loss0
+
+theorem tempStep_congr {M : Type} (bal : ℝ → Bal ℝ M) (tmin : ℝ) (s s' : TState ℝ M)
+    (h : s.T0 = s'.T0) : tempStep bal tmin s = tempStep bal tmin s' := by
+  unfold tempStep; rw [h]
+
+theorem tempCond_congr {M : Type} (eps : ℝ) (s s' : TState ℝ M) (h : Sim s s') :
+    tempCond eps s ↔ tempCond eps s' := by
+  unfold tempCond; rw [h.2.2.2.1, h.2.2.2.2]
+
+theorem tempLoop_sim {M : Type} (bal : ℝ → Bal ℝ M) (eps tmin : ℝ) :
+    ∀ (n k : Nat) (s s' : TState ℝ M), Sim s s' →
+      (tempLoop bal eps tmin n k s).2 = (tempLoop bal eps tmin n k s').2 ∧
+      Sim (tempLoop bal eps tmin n k s).1 (tempLoop bal eps tmin n k s').1 ∧
+      (k < (tempLoop bal eps tmin n k s).2 →
+        (tempLoop bal eps tmin n k s).1 = (tempLoop bal eps tmin n k s').1) := by
+  intro n
+  induction n with
+  | zero => intro k s s' h; simp [tempLoop, h]
+  | succ n ih =>
+    intro k s s' h
+    unfold tempLoop
+    by_cases hc : tempCond eps s
+    · have hc' : tempCond eps s' := (tempCond_congr eps s s' h).mp hc
+      rw [if_pos hc, if_pos hc', tempStep_congr bal tmin s s' h.1]
+      exact ⟨rfl, ⟨rfl, rfl, rfl, rfl, rfl⟩, fun _ => rfl⟩
+    · have hc' : ¬ tempCond eps s' := fun h' => hc ((tempCond_congr eps s s' h).mpr h')
+      rw [if_neg hc, if_neg hc']
+      exact ⟨rfl, h, fun hk => absurd hk (lt_irrefl k)⟩
+
+/-- either no body ran (state and counter untouched) or the counter increased -/
+theorem tempLoop_inv' {M : Type} (bal : ℝ → Bal ℝ M) (eps tmin : ℝ) :
+    ∀ (n k : Nat) (s : TState ℝ M),
+      ((tempLoop bal eps tmin n k s).1 = s ∧ (tempLoop bal eps tmin n k s).2 = k) ∨
+      k < (tempLoop bal eps tmin n k s).2 := by
+  intro n
+  induction n with
+  | zero => intro k s; left; simp [tempLoop]
+  | succ n ih =>
+    intro k s
+    unfold tempLoop
+    split_ifs with hc
+    · right
+      rcases ih (k + 1) (tempStep bal tmin s) with ⟨_, h2⟩ | h2
+      · rw [h2]; exact Nat.lt_succ_self k
+      · omega
+    · left; exact ⟨rfl, rfl⟩
+
+/-- when no body ran, the hydrogen fraction written back is 0 or 1, so the coolants are reset -/
+theorem tempFinish_zero_h0 {M : Type} (i : TempIn ℝ M) (s : TState ℝ M) (k : Nat)
+    (h : s.h0 = 0.0) : (tempFinish i s k).metZero = true := by
+  unfold tempFinish
+  simp only [h]
+  split_ifs with hm
+  · simp [feq_real]
+  · have : ((0.0:ℝ) ≤ 1.0e-10) := by norm_num
+    simp [this]
+
 
 /-- `aa` and `bb` of the code in terms of `C = jH / (nH alphaH)` -/
 theorem aa_bb (alphaH jH nH : ℝ) (ha : 0 < alphaH) (hj : 0 < jH) (hn : 0 < nH) :
